@@ -23,6 +23,13 @@ def lit(v):
     return num(v) if v >= 0 else un("-", num(-v))
 
 
+def chrlit(cp):
+    """A literal written as a character constant (renderer flag; the value is the code point)."""
+    d = num(cp)
+    d["chr"] = 1
+    return d
+
+
 def sym(n):
     return {"t": "sym", "n": n.lower()}
 
@@ -132,7 +139,7 @@ def tokens(a):
     """Token list with exactly the parentheses the operator table requires (Expr!Render)."""
     t = a["t"]
     if t == "num":
-        return [{"k": "num", "s": "", "v": a["v"]}]
+        return [{"k": "num", "s": "", "v": a["v"], "chr": a.get("chr", 0)}]
     if t == "big":
         return [{"k": "big", "s": "", "b": a["b"]}]
     if t == "sym":
@@ -208,7 +215,7 @@ def expr_text(a, sp):
     for i, t in enumerate(toks):
         k = t["k"]
         if k == "num":
-            out.append(sp.number(t["v"]))
+            out.append("'%s'" % chr(t["v"]) if t.get("chr") else sp.number(t["v"]))
         elif k == "big":
             out.append(sp.number(int.from_bytes(bytes(t["b"]), "little")))
         elif k == "sym":
@@ -349,7 +356,7 @@ KEEP = {"k", "ln", "lab", "mn", "ops", "w", "elems", "e", "s", "n", "r", "args",
 def clean(x):
     """The abstract line as the specification sees it (renderer-only fields dropped)."""
     if isinstance(x, dict):
-        return {k: clean(v) for k, v in x.items() if k not in ("text", "spn", "form", "sp", "pfx")}
+        return {k: clean(v) for k, v in x.items() if k not in ("text", "spn", "form", "sp", "pfx", "chr", "ins")}
     if isinstance(x, list):
         return [clean(v) for v in x]
     return x
